@@ -26,7 +26,7 @@ from ..flow import flow_of
 from ..model import unparse, stmt_key, Func, AnchorError
 from . import visitors
 from .c02 import composer
-from .c05 import hasher, branches
+from .c05 import hasher, branches, all_branches
 from .common import Ctx, find_api_functions, user_calls, store_calls, dominated, done_nodes, ancestors
 
 PROP = "C01"
@@ -467,9 +467,9 @@ def tracked_type_table(ctx: Ctx) -> None:
     cls = prog.funcs.get("dds._retrieve_objects._is_authorized_type")
     if cls is None:
         raise AnchorError("role type-classifier (dds._retrieve_objects._is_authorized_type) not found")
-    outer, h = hasher(ctx)
+    outer, _h = hasher(ctx)
     tags: List[Tuple[str, type]] = []
-    for names, _br in branches(h):
+    for names, _br, h in all_branches(ctx):
         for nm in names:
             d = prog.dotted(h, ast.parse(nm, mode="eval").body) if nm not in ("None", "<dataclass>") else None
             py = PYTYPES.get(d or nm)
@@ -531,6 +531,10 @@ def tracked_type_table(ctx: Ctx) -> None:
         def oracle2(name, args, kwargs, node, _off=off):
             if name.endswith("get_option"):
                 a = unparse(node.args[0]) if getattr(node, "args", None) else ""
+                # the option that is read: by the text of the argument, and by its value (an `Option(...)` object bound to a
+                # module-level name, reached through a loop variable in a table-driven classifier)
+                if args and isinstance(args[0], Obj):
+                    a += " " + " ".join(repr(x.v) for x in list(args[0].args) + list(args[0].kwargs.values()) if isinstance(x, Const) and isinstance(x.v, str) and " " not in x.v)
                 if _off in a:
                     return Const(False)
                 if ("list" in a) or ("dict" in a):
